@@ -10,7 +10,7 @@ use crate::chess::{
 
 use crate::chess::player::ByPlayer;
 use nom::character::complete::space0;
-use nom::combinator::opt;
+use nom::combinator::{opt, verify};
 use nom::sequence::terminated;
 use nom::{
     branch::alt,
@@ -56,12 +56,17 @@ fn fen_empty_squares(input: &str) -> IResult<&str, Vec<Option<Piece>>> {
 }
 
 fn fen_line(input: &str) -> IResult<&str, FenRank> {
-    let (input, squares) = many1(alt((
-        map(fen_piece, |p| vec![Some(p); 1]),
-        fen_empty_squares,
-    )))(input)?;
-
-    Ok((input, FenRank(squares.concat())))
+    // Each rank must describe exactly 8 squares
+    verify(
+        map(
+            many1(alt((
+                map(fen_piece, |p| vec![Some(p); 1]),
+                fen_empty_squares,
+            ))),
+            |squares| FenRank(squares.concat()),
+        ),
+        |rank: &FenRank| rank.0.len() == File::N,
+    )(input)
 }
 
 fn fen_position(input: &str) -> IResult<&str, Board> {
@@ -241,7 +246,10 @@ fn fen_parser(input: &str) -> IResult<&str, Game> {
 
 #[inline(always)]
 fn plies_from_fullmove_number(fullmove_number: u32, player: Player) -> u32 {
-    (fullmove_number - 1) * 2 + u32::from(player == Player::Black)
+    fullmove_number
+        .saturating_sub(1)
+        .saturating_mul(2)
+        .saturating_add(u32::from(player == Player::Black))
 }
 
 pub fn parse(input: &str) -> Result<Game, String> {
